@@ -535,8 +535,11 @@ def r5_funnel(ctx, cfg):
            "required methods of Executor: %s" % required, sample="required = [execute]")
     imps = [i for i in F.impls if i.get("trait") == "executor::Executor" and i["self_name"] == APP]
     names = [m["name"] for i in imps for m in i["methods"]]
-    ctx.ob(R, "<app::App as executor::Executor>", "impl-defines-only-execute", names == ["execute"],
-           "impl Executor for App defines %s" % names, sample="methods = [execute]")
+    # (a hook overridden by App is fine when its body changes chain state only through classified entry points of App -
+    # `execute_batch` = `self.execute_multi(..)`)
+    extra = [n0 for n0 in names if n0 != "execute" and not _touches_no_chain_state(cfg, "<app::App as executor::Executor>::" + n0)]
+    ctx.ob(R, "<app::App as executor::Executor>", "impl-defines-only-execute", "execute" in names and not extra,
+           "impl Executor for App defines %s" % names, sample="methods = %s" % names)
     n = 0
     for m in tr["methods"]:
         if not m["has_default"]:
@@ -552,7 +555,9 @@ def r5_funnel(ctx, cfg):
                 args = P.call_args(g, t)
                 if any(is_param(a, "self") for a in args):
                     self_calls.append(t["callee"]["key"])
-        ok = bool(self_calls) and all(k == "executor::Executor::execute" for k in self_calls)
+        # (through `execute`, or through another method of the trait - which is held to the same rule, or overridden by App
+        # under the rule above)
+        ok = bool(self_calls) and all(k.startswith("executor::Executor::") for k in self_calls)
         ctx.ob(R, key, "only-calls-execute-on-self", ok, "provided method touches self through %s" % self_calls, fn=f,
                sample="self used by %s" % self_calls)
     ctx.floor(R, "provided Executor methods", n, 4)
